@@ -731,8 +731,56 @@ func sameNameFeatureCases() []caseRec {
 	return out
 }
 
+// keyLeafCases: if-feature and deviate not-supported on leaves that are named in a list's key
+// statement (single key, second of two keys) - a key leaf is a node like any other here.
+func keyLeafCases() []caseRec {
+	var out []caseRec
+	for _, keys := range []string{"k1", "k1 k2"} {
+		target := "k1"
+		if keys == "k1 k2" {
+			target = "k2"
+		}
+		leaves := ""
+		for _, k := range strings.Fields(keys) {
+			gate := ""
+			if k == target {
+				gate = " if-feature f;"
+			}
+			leaves += fmt.Sprintf(" leaf %s { type string;%s }", k, gate)
+		}
+		for _, on := range []bool{false, true} {
+			var feats []string
+			if on {
+				feats = []string{"a:f"}
+			}
+			r := caseRec{Kind: "key-leaf", Name: fmt.Sprintf("if-feature:%s:enabled=%v", strings.ReplaceAll(keys, " ", "+"), on), Expect: "ok", Feats: feats,
+				Mods: map[string]string{"a": fmt.Sprintf("module a { namespace \"urn:a\"; prefix a; feature f; container top { list l { key \"%s\";%s leaf w { type string; if-feature f; } leaf plain { type string; } } } }", keys, leaves)}}
+			for _, p := range []string{"/top/l/" + target, "/top/l/w"} {
+				if on {
+					r.Present = append(r.Present, p)
+				} else {
+					r.Absent = append(r.Absent, p)
+				}
+			}
+			r.Present = append(r.Present, "/top/l/plain")
+			out = append(out, r)
+		}
+		plain := ""
+		for _, k := range strings.Fields(keys) {
+			plain += fmt.Sprintf(" leaf %s { type string; }", k)
+		}
+		out = append(out, caseRec{Kind: "key-leaf", Name: "not-supported:" + strings.ReplaceAll(keys, " ", "+"), Expect: "ok",
+			Mods: map[string]string{
+				"t": fmt.Sprintf("module t { namespace \"urn:t\"; prefix t; container top { list l { key \"%s\";%s leaf w { type string; } } } }", keys, plain),
+				"d": fmt.Sprintf("module d { namespace \"urn:d\"; prefix d; import t { prefix t; } deviation /t:top/t:l/t:%s { deviate not-supported; } }", target)},
+			Absent: []string{"/top/l/" + target}, Present: []string{"/top/l/w"}})
+	}
+	return out
+}
+
 func run(c *engine.Ctx) {
 	var all []caseRec
+	all = append(all, keyLeafCases()...)
 	all = append(all, sameNameFeatureCases()...)
 	all = append(all, configCases()...)
 	all = append(all, statusCases()...)
